@@ -1,4 +1,4 @@
-import Ledger.Proofs.CorePcev
+import Ledger.Proofs.CoreTxPcev
 
 /-!
 C04 — Effective volumes honour back-dated inserts (Spec / algebra part).
@@ -27,6 +27,24 @@ theorem insert_preserves_PCEV_Inv (table news : List MoveRow) (e : Int) (hinv : 
 theorem PCEV_Inv_all_histories (ops : List StoreOp) (st : Store) (h : runOps ops = .ok st) :
     PCEV_Inv st.moves :=
   (MovesInv_runOpsFrom ops MovesInv_empty h).pcev
+
+/-- The property at transaction level: in every reachable store, the post-commit effective
+    volumes a read of transaction `T` reports (`ComputePostCommitEffectiveVolumes` over the
+    moves of `T`: the last move per account/asset) hold, for exactly the (account, asset)
+    pairs `T` touches, the fold of all postings of the transactions whose effective timestamp is
+    earlier than `T`'s, or equal and inserted before `T` (smaller id), plus `T`'s own — whatever
+    was inserted later in the past. -/
+theorem tx_effective_volumes_eq_fold (ops : List StoreOp) (st : Store) (h : runOps ops = .ok st)
+    (T : TxRec) (hT : T ∈ st.txRecs) :
+    ∃ R, txEffectiveVolumes st.moves T.id = .ok R ∧
+      ∀ k, R.get? k = if touches k T.postings then some (volumesOf (st.txRecs.filter (notAfterTx T)) k) else none :=
+  txEffectiveVolumes_fold h T hT
+
+example : (runOps [.commit { postings := [⟨"world", "a", 10, "USD"⟩], timestamp := 5, insertedAt := 7 },
+                   .commit { postings := [⟨"a", "b", 4, "USD"⟩], timestamp := 1, insertedAt := 8 }]).toOption.map
+            (fun st => [(txEffectiveVolumes st.moves 1).toOption, (txEffectiveVolumes st.moves 2).toOption]) =
+          some [some [(("a", "USD"), ⟨10, 4⟩), (("world", "USD"), ⟨0, 10⟩)],
+                some [(("a", "USD"), ⟨0, 4⟩), (("b", "USD"), ⟨4, 0⟩)]] := by decide
 
 /-- Non-vacuity / test: a back-dated transaction shifts the effective volumes of the later
     moves (tx 2 at t=1 is inserted after tx 1 at t=5; tx 3 ties with tx 1): the move of tx 1
